@@ -1215,6 +1215,14 @@ def extra_checks(ctx):
     with non-equivalence unary rules must really be reached, and the base variant's outside-precondition
     verdict must really be exercised (otherwise the tag would hide nothing and prove nothing)."""
     out = []
+    from comb_spec_searcher.bijection import EqPathParallelSpecFinder
+
+    patched = "_maps_are_matched" in EqPathParallelSpecFinder.__dict__
+    out.append(("repair 8a96a0c in force: EqPathParallelSpecFinder validates the child paths in its own _maps_are_matched "
+                "(the model runs mode variant*%d)" % (3 if patched else 1), patched,
+                "ok" if patched else "failing input: findings/eqpath_unvalidated_child_paths.py (the EqPath finder returns a "
+                "pair whose child paths were never compared; C13_matched_pair_refuted is the model's witness of that code); "
+                "the fixed finding F-C13e returned"))
     n = len(ctx.cases)
     if n < 15000:
         return out
